@@ -103,7 +103,30 @@ fn build_cell(w: &World, s: &mut Src, m: usize, current_owner: &str, pair: usize
                 Some(d) if s.chance(3, 4) => d,
                 _ => w.natives[s.idx(w.natives.len())].clone(),
             };
-            let msg = PairExec::UpdateNativeTokenDecimals { denom, asset_decimals: [s.below(19) as u8, s.below(19) as u8] };
+            // half of the messages are a faithful replica of what the factory itself would push right now (the
+            // pair's current decimals, the denom's registered value in its slot): a pair that judged the
+            // CONTENT instead of the sender would accept it
+            let mut dec = [s.below(19) as u8, s.below(19) as u8];
+            if s.bool() {
+                if let Ok(pi) = w.query::<haloswap::asset::PairInfo>(pr.addr.as_str(), &haloswap::pair::QueryMsg::Pair {}) {
+                    dec = pi.asset_decimals;
+                    if let Ok(reg) = w.query::<haloswap::factory::NativeTokenDecimalsResponse>(w.factory.as_str(), &haloswap::factory::QueryMsg::NativeTokenDecimals { denom: denom.clone() }) {
+                        for i in 0..2 {
+                            if pr.infos[i] == (AssetInfo::NativeToken { denom: denom.clone() }) {
+                                dec[i] = reg.decimals;
+                            }
+                        }
+                    }
+                    if s.bool() {
+                        // ... with the OTHER slot changed
+                        let j = s.idx(2);
+                        if pr.infos[j] != (AssetInfo::NativeToken { denom: denom.clone() }) {
+                            dec[j] = (dec[j] + 1 + s.below(17) as u8) % 19;
+                        }
+                    }
+                }
+            }
+            let msg = PairExec::UpdateNativeTokenDecimals { denom, asset_decimals: dec };
             c(pr.addr.as_str(), to_binary(&msg).unwrap(), vec![w.factory.to_string()], Some(w.factory.to_string()))
         }
         5 => {
@@ -228,6 +251,27 @@ fn run(t: &Tape, want_desc: bool) -> CaseResult {
             }
         } else {
             classes.push("state:before-ownership-transfer");
+        }
+        // in a third of the states the owner has migrated every pair (to the pair code or to its second stored
+        // copy) and the factory itself before the cells are probed
+        if s.chance(1, 3) {
+            let mut migrated = 0;
+            for p in base.pairs.clone() {
+                let code = if s.bool() { base.codes.pair } else { base.codes.pair_alt };
+                let rec = base.exec(Step { sender: current_owner.clone(), call: Call::Factory { msg: FactoryExec::MigratePair { contract: p.addr.to_string(), code_id: Some(code) } }, funds: vec![] });
+                if rec.outcome.is_ok() {
+                    migrated += 1;
+                }
+            }
+            if s.bool() {
+                let fcode = base.codes.factory;
+                let factory = base.factory.to_string();
+                // the chain-level admin of the factory is the ORIGINAL owner account
+                let _ = base.exec(Step { sender: original_owner.clone(), call: Call::Migrate { contract: factory, code_id: fcode }, funds: vec![] });
+            }
+            if migrated > 0 {
+                classes.push("state:after-pair-migration");
+            }
         }
         // in a third of the states the owner has re-registered a denom, so the factory has pushed a
         // decimals update into the pairs (their stored pair info was rewritten) before the cells are probed
@@ -404,7 +448,7 @@ pub fn suites() -> Vec<Suite> {
         thorough_cases: 60_000,
         run,
         direct: None,
-        must_hit: &["state:before-ownership-transfer", "state:after-ownership-transfer", "state:pair-with-liquidity", "state:pair-holds-donated-lp"],
+        must_hit: &["state:before-ownership-transfer", "state:after-ownership-transfer", "state:pair-with-liquidity", "state:pair-holds-donated-lp", "state:after-pair-migration"],
     }]
 }
 
